@@ -134,6 +134,11 @@ func c08Policies(a *refsem.Arch, tier string) []c08Job {
 			add("cond/or+later-entry", []seccomp.SyscallGroup{{Action: seccomp.ActionErrno, NamesWithCondtions: []seccomp.NameWithConditions{
 				{Name: P[1], Conditions: seccomp.ArgumentConditions{c1}}, {Name: P[1], Conditions: seccomp.ArgumentConditions{c2}},
 				{Name: P[3], Conditions: seccomp.ArgumentConditions{{Argument: 0, Operation: seccomp.Equal, Value: uint64(mustNum(a, P[1]))}}}}}}, false, uint32(n%2), n%4 < 2)
+			// the same syscall listed twice with another conditional syscall in between (A, B, A) and (A, B, C, A, B)
+			add("cond/interleaved", []seccomp.SyscallGroup{{Action: seccomp.ActionErrno, NamesWithCondtions: []seccomp.NameWithConditions{
+				{Name: P[1], Conditions: seccomp.ArgumentConditions{c1}}, {Name: P[3], Conditions: seccomp.ArgumentConditions{c2}}, {Name: P[1], Conditions: seccomp.ArgumentConditions{c2}}}}}, false, uint32(n%2), n%4 < 2)
+			add("cond/interleaved", []seccomp.SyscallGroup{{Action: seccomp.ActionErrno, NamesWithCondtions: []seccomp.NameWithConditions{
+				{Name: P[1], Conditions: seccomp.ArgumentConditions{c1}}, {Name: P[3], Conditions: seccomp.ArgumentConditions{c2}}, {Name: P[4], Conditions: seccomp.ArgumentConditions{c1}}, {Name: P[1], Conditions: seccomp.ArgumentConditions{c2}}, {Name: P[3], Conditions: seccomp.ArgumentConditions{c1}}}}}, false, uint32(n%2), n%4 < 2)
 			add("cond/two-groups+kill", []seccomp.SyscallGroup{
 				{Action: seccomp.ActionErrno, NamesWithCondtions: []seccomp.NameWithConditions{{Name: P[1], Conditions: seccomp.ArgumentConditions{c1}}}},
 				{Action: seccomp.ActionKillProcess, NamesWithCondtions: []seccomp.NameWithConditions{{Name: P[1], Conditions: seccomp.ArgumentConditions{c2}}}, Names: []string{P[4]}}}, n%5 == 0, uint32(n%2), n%4 < 2)
@@ -244,7 +249,7 @@ func checkC08(tier, replay string) int {
 	ctx.Cov["loads_after_a_foreign_load_on_another_thread"] = atomic.LoadInt64(&c08Pre)
 	ctx.Cov["kill_process_events_observed_as_SIGSYS"] = kills
 	ctx.Cov["policies_loaded"] = len(jobs)
-	ctx.Cov["rule"] = "states = policies of probe scope S8 over {getpgrp,getppid,getuid,geteuid,getgid,getegid} (names-only with 1-2 groups and 4 actions; single conditions over 8 ops x 6 argument registers x boundary operands; AND lists, OR lists, conditional entries in two groups, kill_process behind a condition, a first group of 64/70 conditional entries (long jumps) followed by a second group, policies whose groups are all empty (default-only filter); with and without the whole remaining table as a >255-instruction allow group), each loaded by the real LoadFilter in a fresh child with flags in {0,tsync} and no_new_privs on/off, as root and as uid 65534 (quick tier: one combination per policy in rotation; thorough tier: all eight for every policy), about half of the loads with a policy value that was assembled and dumped in an earlier shape (one group less, another default action) before being completed, a third after another thread has loaded a longer unrelated filter, a third followed by a load of the same filter on the second thread (which then must be filtered too); plus interleaved loads: thread T0's LoadFilter of a probe policy is held at the seccomp(2) seam (no_new_privs set, sock_fprog built) while thread T1 performs a complete LoadFilter of another policy (without and with thread-sync), then released - the sock_fprog must be unchanged on release, T0 must decide by its own policy (combined with T1's when that was thread-synced: the kernel takes the most severe action) and T1 by its own; transitions = probe events: every probe syscall x every cell of the exact partition of the argument registers, issued with RawSyscall6 from the loading thread and from a second thread; the reference decision (model) is compared with errno / SIGSYS observed on the real kernel, and the sock_fprog captured at the seam hook with the program compiled in the parent"
+	ctx.Cov["rule"] = "states = policies of probe scope S8 over {getpgrp,getppid,getuid,geteuid,getgid,getegid} (names-only with 1-2 groups and 4 actions; single conditions over 8 ops x 6 argument registers x boundary operands; AND lists, OR lists, the same syscall listed twice with other conditional syscalls in between, conditional entries in two groups, kill_process behind a condition, a first group of 64/70 conditional entries (long jumps) followed by a second group, policies whose groups are all empty (default-only filter); with and without the whole remaining table as a >255-instruction allow group), each loaded by the real LoadFilter in a fresh child with flags in {0,tsync} and no_new_privs on/off, as root and as uid 65534 (quick tier: one combination per policy in rotation; thorough tier: all eight for every policy), about half of the loads with a policy value that was assembled and dumped in an earlier shape (one group less, another default action) before being completed, a third after another thread has loaded a longer unrelated filter, a third followed by a load of the same filter on the second thread (which then must be filtered too); plus interleaved loads: thread T0's LoadFilter of a probe policy is held at the seccomp(2) seam (no_new_privs set, sock_fprog built) while thread T1 performs a complete LoadFilter of another policy (without and with thread-sync), then released - the sock_fprog must be unchanged on release, T0 must decide by its own policy (combined with T1's when that was thread-synced: the kernel takes the most severe action) and T1 by its own; transitions = probe events: every probe syscall x every cell of the exact partition of the argument registers, issued with RawSyscall6 from the loading thread and from a second thread; the reference decision (model) is compared with errno / SIGSYS observed on the real kernel, and the sock_fprog captured at the seam hook with the program compiled in the parent"
 	ctx.Assumptions = []string{"probe syscalls ignore their arguments and always succeed when allowed", "refsem.Decide is the model; the kernel is the implementation", "only host architecture (x86_64) events can be issued"}
 	return ctx.Finish()
 }
